@@ -217,10 +217,17 @@ func scenarioC19(x *runner.X) {
 			q.include = pickAccs(t.Range(1, 2))
 		}
 		if !q.noFilter && t.Bool(0.3) {
-			q.exclude = pickAccs(1)
+			q.exclude = pickAccs(t.Range(1, 2))
 		}
 		if !q.noFilter && t.Bool(0.3) {
-			q.required = pickAccs(1)
+			q.required = pickAccs(t.Range(1, 2))
+		}
+		// a client may name an account twice in a list: the lists are sets
+		if t.Bool(0.2) {
+			if l := []*[]solana.PublicKey{&q.include, &q.exclude, &q.required}[t.Intn(3)]; len(*l) > 0 {
+				*l = append(*l, (*l)[t.Intn(len(*l))])
+				x.Probe("c19.duplicate_in_filter_list")
+			}
 		}
 		reqs = append(reqs, q)
 		desc += fmt.Sprintf("[%d..%d nofilter=%v vote=%v failed=%v inc=%d exc=%d req=%d] ", q.start, q.end, q.noFilter, q.vote, q.failed, len(q.include), len(q.exclude), len(q.required))
@@ -318,8 +325,9 @@ func scenarioC19(x *runner.X) {
 				}
 			}
 			multi := NewMultiEpoch(&Options{EpochSearchConcurrency: 2})
+			srvLoad := newServerLoader()
 			for _, c := range cfgs {
-				ep, err := loadEpoch(c)
+				ep, err := srvLoad(c)
 				if err != nil {
 					s.Fail("oracle", "a freshly indexed epoch cannot be loaded", err.Error())
 				}
